@@ -571,6 +571,13 @@ def check_property(pid, tier, seed, reg, results_cache):
                 errs = failed_fns.get(f['fn'], [])
                 if r['status'] == 'undecided' and not errs:
                     st = 'undecided'
+                elif errs and f.get('new_override'):
+                    # R24: a function that did not exist on the tree the proofs were written for (a new override of a provided trait method),
+                    # woven without proof hints.  If it verifies against the trait contract it is proved; if it does not, that is an
+                    # undischarged obligation that never passed before - undecided, not a violation
+                    st = 'undecided'
+                    undecided.append({'unit': r['unit'], 'why': ['new override %s does not verify against the contract of the trait method without a proof (undischarged, never passed before): %s'
+                                                                  % (f['fn'], '; '.join(e['msg'] for e in errs)[:300])]})
                 elif errs:
                     st = 'FAILED'
                     for e in errs:
